@@ -339,6 +339,7 @@ Fixpoint elem_code (s : schema) (v : value) : option N :=
   match s, v with
   | SStruct (Some t) _, _ => Some (code_val t)
   | SByteArr _ (Some t), _ => Some (code_val t)
+  | SPtr _, VNil => None              (* nil element: checkArrayMustOccur reports an error *)
   | SPtr s', _ => elem_code s' v
   | SIface _ _, VIface c _ => Some c
   | _, _ => None
